@@ -398,6 +398,11 @@ func (c *EvalCtx) index(x, i CV) CV {
 			h := c.w().elemHeap(u.Elem())
 			return c.typed(sel(sel(c.ex.heapTerm(c.st, h), sArr(x.T)), idxT(sOff(x.T), i.T)), u.Elem())
 		case *types.Map:
+			if es := c.w().sortOf(u.Elem()); es != "Val" {
+				// maps of other element types (function tables) live in their own heaps
+				h := c.w().heap("MF_"+es+"_val", "(Array Int (Array Str "+es+"))")
+				return c.typed(sel(sel(c.ex.heapTerm(c.st, h), x.T), i.T), u.Elem())
+			}
 			h := c.w().heap("M_val", "(Array Int (Array Str Val))")
 			return c.typed(sel(sel(c.ex.heapTerm(c.st, h), x.T), i.T), u.Elem())
 		case *types.Pointer:
@@ -565,7 +570,14 @@ func (c *EvalCtx) call(e *Expr) CV {
 	case "has":
 		a := args()
 		h := c.w().heap("M_dom", "(Array Int (Array Str Bool))")
-		return boolean(sel(sel(c.ex.heapTerm(c.st, h), a[0].T), a[1].T))
+		if a[0].Type != nil {
+			if mt, ok := a[0].Type.Underlying().(*types.Map); ok {
+				if es := c.w().sortOf(mt.Elem()); es != "Val" {
+					h = c.w().heap("MF_"+es+"_dom", "(Array Int (Array Str Bool))")
+				}
+			}
+		}
+		return boolean(and(not(eq(a[0].T, "0")), sel(sel(c.ex.heapTerm(c.st, h), a[0].T), a[1].T)))
 	case "fresh":
 		x := args()[0]
 		if c.old == nil {
